@@ -1004,6 +1004,36 @@ def transplant_records(out: hlib.RecWriter, rng: random.Random) -> None:
                    'sig': {'kind': 'rt', 'action': 'transplant', 'layout': layout, 'src': 'synth'}})
 
 
+def empty_compressed_records(out: hlib.RecWriter) -> None:
+    """A view of an LZMA-compressed lump replaced by a legal value that serialises to nothing
+    (visibility = None: VVIS has not run; cubemaps = [])."""
+    for layout in ('v20', 'l4d2'):
+        for view, value, lump in (('visibility', None, 'VISIBILITY'), ('cubemaps', [], 'CUBEMAPS')):
+            world = S.make_world(layout, 7)
+            src_path = os.path.join(TMP, 'ec_src.bsp')
+            with open(src_path, 'wb') as f:
+                f.write(S.build(world, compress='all'))
+            ref = L.project_file(src_path)
+            ref['views'][view] = value
+            err = ''
+            diff: list = []
+            try:
+                b = BSP(src_path)
+                setattr(b, view, value)
+                dst = os.path.join(TMP, 'ec_dst.bsp')
+                quiet_save(b, dst)
+                new = L.project_file(dst)
+                for name in L.PROJECT_ORDER:
+                    for lab in sorted(L.diff_labels(ref['views'][name], new['views'][name], name, set())):
+                        diff.append([name, lab])
+                if new['errors']:
+                    diff.append([view, 'unreadable'])
+            except Exception as exc:    # noqa: BLE001
+                err = type(exc).__name__
+            out.write({'k': 'rt', 'layout': layout, 'wseed': 7, 'fmt': view, 'diff': diff, 'error': err,
+                       'sig': {'kind': 'rt', 'action': 'emptyCompressed', 'layout': layout, 'src': 'synth', 'view': view}})
+
+
 def main() -> None:
     mode = sys.argv[1]
     rng = random.Random(f'{hlib.seed()}/{mode}')
@@ -1031,6 +1061,7 @@ def main() -> None:
         elif mode == 'transplant':
             out = hlib.RecWriter(sys.argv[2])
             transplant_records(out, rng)
+            empty_compressed_records(out)
         elif mode == 'replay':
             with open(sys.argv[2]) as f:
                 rp = json.load(f)
